@@ -1643,7 +1643,10 @@ class DB:
                 if g.kind == "closure":
                     # a closure spliced into its user (`for_each`): closures nested in it now belong to that body
                     owners = [o for o, q in self.inlined if q == gid and o in self.fns]
-                    if len(set(owners)) != 1:
+                    has_kids = any(getattr(x, "parent", None) == gid for x in self.fns.values())
+                    if len(set(owners)) != 1 and has_kids:
+                        continue
+                    if not owners:
                         continue
                     for x in self.fns.values():
                         if getattr(x, "parent", None) == gid:
